@@ -9,14 +9,19 @@ from pkgcore.merge import triggers
 from pkgcore.merge.engine import MergeEngine
 from pkgcore.operations import observer as observer_mod
 from props.mergefs import snapshot
-from sx import core
+import types
+
+import z3
+
+from sx import core, lower
+from sx.core import SymStr
 from sx.runner import Harness
 
 ID = "C21"
 MANIFEST = {
-    "technique": "bounded model checking with solver-decided choice (SX engine): the env.d settings below the offset (CONFIG_PROTECT with and without a trailing slash, CONFIG_PROTECT_MASK, COLLISION_IGNORE as a glob and as a directory entry), the pending ._cfgNNNN_ updates next to a protected file (none, identical to the incoming file, differing, gaps in the numbering, look-alike names), whether each incoming / recorded file is identical to the live one, and the engine mode (install / uninstall) are symbolic selectors; the engine forks over every feasible combination, builds the live root on a real scratch directory, runs the real MergeEngine hooks with ConfigProtectInstall(+_restore) / ConfigProtectUninstall and the merge / unmerge triggers and compares the file contents, the ._cfg names and the recorded contents with the specification",
-    "level_text": "Bounded model checking, exhaustive within the bound (install: 3 x 2 x 3 settings x 5 pending-update shapes x 2^2 identical/differing; uninstall: the settings x 2^3 modified/unmodified): a live file under CONFIG_PROTECT (and /etc), not masked and not ignored, whose content differs from the incoming one keeps its content; the incoming file appears beside it as ._cfgNNNN_<name> with the number of an identical pending update or else one above every pending number; the recorded contents carry the real names; masked, ignored and unprotected files are overwritten; an identical incoming file creates no update; unmerging keeps exactly the protected files whose content differs from the recorded one. Selector-only; real code on real files.",
-    "level_note": "selector-only harness (labelled as such). The offset is a scratch directory (offset '/' cannot be exercised).",
+    "technique": "bounded model checking with solver-decided choice (SX engine): the env.d settings below the offset (CONFIG_PROTECT with and without a trailing slash, CONFIG_PROTECT_MASK, COLLISION_IGNORE as a glob and as a directory entry), the pending ._cfgNNNN_ updates next to a protected file (none, identical to the incoming file, differing, gaps in the numbering, look-alike names), whether each incoming / recorded file is identical to the live one, and the engine mode (install / uninstall) are symbolic selectors; the engine forks over every feasible combination, builds the live root on a real scratch directory, runs the real MergeEngine hooks with ConfigProtectInstall(+_restore) / ConfigProtectUninstall and the merge / unmerge triggers and compares the file contents, the ._cfg names and the recorded contents with the specification; in addition the ._cfgNNNN_ numbering is decided symbolically: a lowered copy of the real ConfigProtectInstall.trigger (compiled from /repo/src on every run) runs with the directory listing and the checksum comparison as stubs, the four digits of each of up to three pending updates and whether each is identical to the incoming file being solver variables, and z3 proves on every path that the chosen number is that of an identical pending update or exceeds every pending number",
+    "level_text": "Bounded model checking, exhaustive within the bound (install: 3 x 2 x 3 settings x 5 pending-update shapes x 2^2 identical/differing; uninstall: the settings x 2^3 modified/unmodified): a live file under CONFIG_PROTECT (and /etc), not masked and not ignored, whose content differs from the incoming one keeps its content; the incoming file appears beside it as ._cfgNNNN_<name> with the number of an identical pending update or else one above every pending number; the recorded contents carry the real names; masked, ignored and unprotected files are overwritten; an identical incoming file creates no update; unmerging keeps exactly the protected files whose content differs from the recorded one (selector part: real code on real files). Symbolic part: for 0-2 (thorough: 0-3) pending updates with all 10^4 numbers each and all identical/differing combinations, among look-alike names, exactly one update file is produced beside the protected file and its number is that of an identical pending update, or else greater than every pending number.",
+    "level_note": "The file-level harness is selector-only (labelled as such); the numbering harness is symbolic (digits through int()/max()/f-string formatting of the lowered trigger). Stubs of the numbering harness: listdir_files, livefs.gen_obj, simple_chksum_compare, pjoin. The offset is a scratch directory (offset '/' cannot be exercised).",
 }
 META = {
     "modules": ["pkgcore.ebuild.triggers", "pkgcore.merge.engine", "pkgcore.merge.triggers"],
@@ -24,7 +29,8 @@ META = {
     "bounds": {"quick": "menus above", "thorough": "same (the space is swept completely in both tiers)"},
     "outside": ["offset '/'", "CONFIG_PROTECT passed as extra_protects by the domain"],
     "assumptions": [],
-    "selector_only": True,
+    "selector_only": False,
+    "stubs": ["numbering harness: listdir_files returns the pending names (symbolic digits) among decoys; livefs.gen_obj / simple_chksum_compare answer 'identical to the incoming file' from a solver Bool per pending update; pjoin concatenates symbolic strings"],
 }
 
 PROTECT = [None, "/opt/app/conf", "/opt/app/conf/"]
@@ -193,8 +199,138 @@ class ConfigHarness(Harness):
         return not obs["problems"]
 
 
+# ---------------------------------------------------------------- the ._cfgNNNN_ numbering, for all numbers
+class Ent:
+    """stand-in for an fs entry: what ConfigProtectInstall.trigger touches"""
+
+    is_reg = True
+
+    def __init__(self, location, tag):
+        self.location, self.tag = location, tag
+
+    def change_attributes(self, location):
+        return Ent(location, self.tag)
+
+
+class Cset:
+    def __init__(self, ents):
+        self.ents = list(ents)
+
+    def iterfiles(self):
+        return iter(self.ents)
+
+    def __getitem__(self, x):
+        return next(e for e in self.ents if e.location == x.location)
+
+    def remove(self, e):
+        self.ents.remove(e)
+
+    def add(self, e):
+        self.ents.append(e)
+
+
+def sx_pjoin(*parts):
+    if all(isinstance(p, str) for p in parts):
+        return os.path.join(*parts)
+    items = []
+    for i, p in enumerate(parts):
+        if i:
+            items.append("/")
+        items += list(core.items_of(p))
+    return core.mk(items)
+
+
+def same_items(a, b):
+    return len(a) == len(b) and all((x == y) if isinstance(x, str) or isinstance(y, str) else x.eq(y) for x, y in zip(a, b))
+
+
+class NumberingHarness(Harness):
+    """the real ConfigProtectInstall.trigger (lowered copy) with the directory listing and the checksum comparison as stubs:
+    the 4 digits of every pending update and whether it is identical to the incoming file are solver variables"""
+
+    def setup(self, eng):
+        k = self.ob["pending"]
+        return {"digits": [SymStr(tuple(eng.char(f"p{i}d{j}", "0123456789") for j in range(4))) for i in range(k)], "same": [eng.bool(f"identical{i}") for i in range(k)]}
+
+    def body(self, inp):
+        k = self.ob["pending"]
+        names = [core.mk(list("._cfg") + list(core.items_of(inp["digits"][i])) + list("_app.conf")) for i in range(k)]
+        decoys = ["app.conf", "._cfg0007_other.conf", "._cfgXXXX_app.conf", "._cfg12_app.conf", "._cfg00010app.conf"]
+        td = os.path.realpath(tempfile.mkdtemp(prefix="c21n-"))
+        try:
+            os.makedirs(os.path.join(td, "etc"))
+            live = Ent(os.path.join(td, "etc/app.conf"), "live")
+            incoming = Ent(os.path.join(td, "etc/app.conf"), "incoming")
+            install = Cset([incoming])
+
+            def listdir_files(d):
+                return list(decoys[:2]) + names + list(decoys[2:])
+
+            def gen_obj(path):
+                its = core.items_of(path)
+                for i, n in enumerate(names):
+                    ni = core.items_of(n)
+                    if same_items(its[-len(ni):], ni):
+                        return types.SimpleNamespace(pending=i)
+                return types.SimpleNamespace(pending=None)  # not one of the pending updates
+
+            def compare(a, b):
+                if getattr(a, "pending", None) is not None:
+                    return inp["same"][a.pending]
+                return False  # the incoming file differs from the live one
+
+            extra = {"listdir_files": listdir_files, "livefs": types.SimpleNamespace(gen_obj=gen_obj), "simple_chksum_compare": compare, "pjoin": sx_pjoin}
+            if core.ENG is not None:
+                trig = lower.shadow_func("pkgcore.ebuild.triggers", "ConfigProtectInstall.trigger", shim_names=("int", "str", "isinstance", "len"), extra=extra)
+                t = etriggers.ConfigProtectInstall()
+                trig(t, types.SimpleNamespace(offset=td), Cset([live]), install)
+            else:
+                import pkgcore.ebuild.triggers as real
+                from sx.shims import patched
+
+                t = etriggers.ConfigProtectInstall()
+                with patched((real, "listdir_files", listdir_files), (real, "livefs", extra["livefs"]), (real, "simple_chksum_compare", compare)):
+                    t.trigger(types.SimpleNamespace(offset=td), Cset([live]), install)
+            locs = [e.location for e in install.ents]
+        finally:
+            shutil.rmtree(td, ignore_errors=True)
+        out = {"n": len(locs), "name": None}
+        if len(locs) == 1:
+            its = core.items_of(locs[0])
+            pre = len(td) + len("/etc/")
+            out["dir_ok"] = same_items(its[:pre], tuple(td + "/etc/"))
+            out["name"] = core.mk(its[pre:])
+        return out
+
+    def prop(self, inp, obs):
+        if obs["n"] != 1 or not obs["dir_ok"]:
+            return False
+        its = core.items_of(obs["name"])
+        head, tail = "._cfg", "_app.conf"
+        nd = len(its) - len(head) - len(tail)
+        if nd < 4 or not same_items(its[: len(head)], tuple(head)) or not same_items(its[len(its) - len(tail):], tuple(tail)):
+            return False
+
+        def val(ds):
+            v = 0
+            for d in ds:
+                v = v * 10 + ((ord(d) if isinstance(d, str) else d) - 48)
+            return v
+
+        r = val(its[len(head): len(head) + nd])
+        nums = [val(core.items_of(ds)) for ds in inp["digits"]]
+        same = [b.e if hasattr(b, "e") else z3.BoolVal(bool(b)) for b in inp["same"]]
+        r = r if not isinstance(r, int) else z3.IntVal(r)
+        if not nums:
+            return r == 0 if not isinstance(r, int) else r == 0
+        any_same = z3.Or(*same) if len(same) > 1 else same[0]
+        reuse = z3.Or(*[z3.And(sm, r == n) for sm, n in zip(same, nums)]) if len(same) > 1 else z3.And(same[0], r == nums[0])
+        above = z3.And(*[r > n for n in nums]) if len(nums) > 1 else r > nums[0]
+        return z3.And(z3.Implies(any_same, reuse), z3.Implies(z3.Not(any_same), above))
+
+
 def harness(ob):
-    return ConfigHarness(ob)
+    return NumberingHarness(ob) if ob.get("numbering") else ConfigHarness(ob)
 
 
 UNIVERSE = {}
@@ -202,5 +338,7 @@ UNIVERSE = {}
 
 def obligations(tier, seed):
     obs = [{"oid": f"{mode}|CONFIG_PROTECT={PROTECT[p]}|COLLISION_IGNORE={IGNORE[i]}", "mode": mode, "protect": p, "ignore": i, "max_paths": 100000, "max_s": 2400} for mode in ("install", "uninstall") for p in range(len(PROTECT)) for i in range(len(IGNORE))]
+    for k in range(0, 4 if tier != "quick" else 3):
+        obs.append({"oid": f"numbering|{k} pending updates with symbolic numbers", "numbering": True, "pending": k, "max_paths": 200000, "max_s": 2400})
     UNIVERSE[tier] = {"obligations": len(obs)}
     return obs
